@@ -323,6 +323,49 @@ func R5(pkgs ...string) func(p *core.Prog) *core.Result {
 			in[k] = true
 		}
 		total := 0
+		// field invariant: remaining-length entries (lengthStack.current) never exceed the largest value pushed
+		lenHi := map[string]*big.Int{}
+		lenLo := map[string]*big.Int{} // assumption: countdowns (current--, current -= consumed) never go below -1: each decrement is matched by an element / byte actually consumed
+		for _, f := range p.ModFuncs() {
+			pk := core.FuncPkg(f)
+			if pk == nil || !in[pk.Name()] {
+				continue
+			}
+			hasPush := false
+			if f.Name() == "pushLen" || (f.Signature.Recv() != nil && namedOf(f.Signature.Recv().Type()) != nil && namedOf(f.Signature.Recv().Type()).Obj().Name() == "lengthStack") {
+				continue // the wrapper / the stack itself: their callers are the push sites
+			}
+			for _, b := range f.Blocks {
+				for _, ins := range b.Instrs {
+					if c, ok := ins.(*ssa.Call); ok && isLengthPush(c) {
+						hasPush = true
+					}
+				}
+			}
+			if !hasPush {
+				continue
+			}
+			env := &ienv{num: newNumbering(), sizes: sizes}
+			k := &r5client{env: env, fn: f}
+			k.observe = func(s istate, ins ssa.Instruction) {
+				c, ok := ins.(*ssa.Call)
+				if !ok || !isLengthPush(c) {
+					return
+				}
+				args := c.Common().Args
+				iv, ok := env.get(s, args[len(args)-1])
+				if !ok {
+					return
+				}
+				if cur := lenHi[pk.Name()]; cur == nil || iv.hi.Cmp(cur) > 0 {
+					lenHi[pk.Name()] = iv.hi
+				}
+				if cur := lenLo[pk.Name()]; cur == nil || iv.lo.Cmp(cur) < 0 {
+					lenLo[pk.Name()] = iv.lo
+				}
+			}
+			WalkPaths[istate](k, f.Blocks[0], 0, istate{}, 400000, nil)
+		}
 		for _, f := range p.ModFuncs() {
 			pk := core.FuncPkg(f)
 			if pk == nil || !in[pk.Name()] || isInitFunc(f) {
@@ -338,6 +381,27 @@ func R5(pkgs ...string) func(p *core.Prog) *core.Result {
 			}
 			ors := map[*ssa.BinOp]*orObs{}
 			env := &ienv{num: newNumbering(), sizes: sizes}
+			if hi := lenHi[pk.Name()]; hi != nil && f.Signature.Recv() != nil && namedOf(f.Signature.Recv().Type()) != nil && namedOf(f.Signature.Recv().Type()).Obj().Name() != "lengthStack" {
+				env.loadBound = func(ld *ssa.UnOp) (ival, bool) {
+					fa, ok := ld.X.(*ssa.FieldAddr)
+					if !ok {
+						return ival{}, false
+					}
+					n := namedOf(fa.X.Type())
+					if n == nil || n.Obj().Name() != "lengthStack" {
+						return ival{}, false
+					}
+					st := n.Underlying().(*types.Struct)
+					if st.Field(fa.Field).Name() != "current" {
+						return ival{}, false
+					}
+					lo := big.NewInt(-1)
+					if l := lenLo[pk.Name()]; l != nil && l.Cmp(lo) < 0 {
+						lo = l
+					}
+					return ival{lo, hi}, true
+				}
+			}
 			k := &r5client{env: env, fn: f}
 			k.observe = func(s istate, ins ssa.Instruction) {
 				switch x := ins.(type) {
@@ -483,7 +547,7 @@ func R5(pkgs ...string) func(p *core.Prog) *core.Result {
 					continue
 				}
 				narrowing := dbits < sbits
-				sameWidthSign := dbits == sbits && dsigned != ssigned
+				sameWidthSign := dbits >= sbits && dsigned != ssigned // value changes only for negative / too large operands
 				// accepted idioms
 				switch {
 				case pk.Name() == "ubjson" && (isBigEndianLoad(cv.X) || isByteLoad(cv.X)) && sameWidthSign:
@@ -831,4 +895,17 @@ func inlineArgSource(v ssa.Value) (ssa.Value, bool) {
 		break
 	}
 	return nil, false
+}
+
+// isLengthPush: a call of (*lengthStack).push or of a one-line wrapper pushLen.
+func isLengthPush(c *ssa.Call) bool {
+	sc := c.Common().StaticCallee()
+	if sc == nil || len(c.Common().Args) < 2 {
+		return false
+	}
+	if sc.Name() == "push" && sc.Signature.Recv() != nil {
+		n := namedOf(sc.Signature.Recv().Type())
+		return n != nil && n.Obj().Name() == "lengthStack"
+	}
+	return sc.Name() == "pushLen"
 }
